@@ -38,7 +38,7 @@ typedef struct pair1_sock pair1_sock;
 static void pair1_pipe_send_cb(void *);
 static void pair1_pipe_recv_cb(void *);
 static void pair1_pipe_fini(void *);
-static void pair1_send_sched(pair1_sock *);
+static void pair1_send_sched(pair1_sock *, pair1_pipe *);
 static void pair1_pipe_send(pair1_pipe *, nni_msg *);
 
 // pair1_sock is our per-socket protocol private structure.
@@ -297,7 +297,7 @@ pair1_pipe_start(void *arg)
 	s->rd_ready = false;
 	nni_mtx_unlock(&s->mtx);
 
-	pair1_send_sched(s);
+	pair1_send_sched(s, p);
 
 	// And the pipe read of course.
 	nni_pipe_recv(p->pipe, &p->aio_recv);
@@ -362,6 +362,16 @@ pair1_pipe_recv_cb(void *arg)
 
 	nni_mtx_lock(&s->mtx);
 
+	if (s->p != p) {
+		// This pipe is no longer the attached peer (it is being
+		// torn down): nobody would ever pick the message up here.
+		nni_mtx_unlock(&s->mtx);
+		nni_aio_set_msg(&p->aio_recv, NULL);
+		nni_msg_free(msg);
+		nni_pipe_close(p->pipe);
+		return;
+	}
+
 	// if anyone is blocking, then the lmq will be empty, and
 	// we should deliver it there.
 	if ((a = nni_list_first(&s->raq)) != NULL) {
@@ -386,7 +396,7 @@ pair1_pipe_recv_cb(void *arg)
 }
 
 static void
-pair1_send_sched(pair1_sock *s)
+pair1_send_sched(pair1_sock *s, pair1_pipe *from)
 {
 	pair1_pipe *p;
 	nni_msg    *m;
@@ -395,7 +405,10 @@ pair1_send_sched(pair1_sock *s)
 
 	nni_mtx_lock(&s->mtx);
 
-	if ((p = s->p) == NULL) {
+	// A completion of a pipe that is not (or no longer) the attached
+	// peer must leave the pairing alone: that pipe is being torn down,
+	// and another one may be sending already.
+	if (((p = s->p) == NULL) || (p != from)) {
 		nni_mtx_unlock(&s->mtx);
 		return;
 	}
@@ -448,7 +461,7 @@ pair1_pipe_send_cb(void *arg)
 		return;
 	}
 
-	pair1_send_sched(p->pair);
+	pair1_send_sched(p->pair, p);
 }
 
 static void
